@@ -46,6 +46,33 @@ func verifH_C13_verdict() {
 	verifAssert(verifOr(verifAnd(ok, err == nil), verifAnd(!ok, err != nil)), "true-nil-or-false-error")
 }
 
+// the same pair for OCRA validation: usable and unusable suites (code lengths -1, 0, 3, 11 are read
+// before the suite is checked), arbitrary inputs, codes of the expected length +-1 and the empty code
+//
+//verif:harness prop=C13 name=verdictocra
+//verif:cases quick digits=-1,0,6,11 dlen=-1,0,1 flags=2,31
+//verif:cases thorough digits=-1,0,3,4,6,10,11 dlen=-1,0,1 flags=0,2,3,31
+//verif:replace github.com/ja7ad/otp.DecodeSecret=verifStub_DecodeSecret
+//verif:opt hmac=fresh unwind=1000 maxpaths=3000
+func verifH_C13_verdictocra() {
+	digits := verifCase("digits")
+	cfg := verifFlagsConfig(verifCase("flags"), 20, int(verifU8("hash")%4), digits, 1, 1)
+	in := verifSymInput(0)
+	key := verifBytes("key", 10)
+	secret := verifSecretFor(key, verifBool("decode_fails"))
+	n := digits + verifCase("dlen")
+	if n < 0 {
+		n = 0
+	}
+	code := verifString("code", n)
+	var ok bool
+	var err error
+	pan := verifPanics(func() { ok, err = ValidateOCRA(secret, code, cfg, in) })
+	verifObserve("ok", ok)
+	verifAssert(!pan, "no-panic")
+	verifAssert(verifOr(verifAnd(ok, err == nil), verifAnd(!ok, err != nil)), "true-nil-or-false-error")
+}
+
 // verifSmallLen makes a symbolic small length concrete by case split (0..13)
 func verifSmallLen(n int) int {
 	for k := 0; k < 13; k++ {
